@@ -67,6 +67,7 @@ func c15Exec(ndest int, alphabet []string) func(hist []int) (string, string, str
 			var buf []byte
 			closed, sockClosed := false, false
 			refused := 0 // refused writes since the last flush: implementation state the model does not have
+			var refusedOps []string // ... and which calls they were (a refused WriteString is not a refused Write)
 			want := make([][][]byte, ndest)
 			for k, op := range hist {
 				name := alphabet[op]
@@ -100,6 +101,9 @@ func c15Exec(ndest int, alphabet []string) func(hist []int) (string, string, str
 						buf = append(buf, p...)
 					} else if !closed {
 						refused++
+						if len(refusedOps) < 2 {
+							refusedOps = append(refusedOps, name)
+						}
 					}
 				case name == "flush":
 					ferr := tr.Flush()
@@ -114,7 +118,7 @@ func c15Exec(ndest int, alphabet []string) func(hist []int) (string, string, str
 							}
 						}
 						buf = buf[:0] // the buffer is empty after any Flush, successful or not
-						refused = 0
+						refused, refusedOps = 0, nil
 					}
 				case name == "close":
 					if cerr := tr.Close(); closed && cerr != nil {
@@ -145,7 +149,7 @@ func c15Exec(ndest int, alphabet []string) func(hist []int) (string, string, str
 			if refused > 2 {
 				refused = 2
 			}
-			key = fmt.Sprint(ndest, len(buf), closed, sockClosed, len(want[0]), refused)
+			key = fmt.Sprint(ndest, len(buf), closed, sockClosed, len(want[0]), refused, refusedOps)
 			return "", ""
 		})
 		return
